@@ -849,6 +849,8 @@ def r13(R):
         """`info.get('tid')` / `info['tid']`, directly or through a local"""
         from ..twopc import resolve_local
         e = resolve_local(e, F, node.frame)
+        if isinstance(e, ast.IfExp):      # info['tid'] if 'tid' in info ...
+            return saved_tid(e.body, node) or saved_tid(e.orelse, node)
         if isinstance(e, ast.Call) and isinstance(e.func, ast.Attribute) and \
                 e.func.attr == 'get' and e.args and isinstance(
                     e.args[0], ast.Constant) and e.args[0].value == 'tid':
